@@ -182,7 +182,12 @@ Finish ==
          ia  == ImplAll(mods, Len(mods))
      IN out' = [resolve |-> [n \in AllNames |-> Lookup(vis, n)],
                 impl    |-> [n \in AllNames |-> Lookup(ia, n)],
-                by      |-> [d \in Dev |-> [n \in AllNames |-> Lookup(ImplAllD(mods, Len(mods), {d}), n)]]]
+                by      |-> [d \in Dev |-> [n \in AllNames |-> Lookup(ImplAllD(mods, Len(mods), {d}), n)]],
+                \* what a host scoping unit with a plain `use m1` contributes to names the probe's own USE statements
+                \* leave unresolved (host association: a use-associated name of the inner scope hides the host's)
+                exp1    |-> [n \in AllNames |-> Lookup(RefExports(mods, 1), n)],
+                iexp1   |-> [n \in AllNames |-> Lookup(ImplPub(mods, 1), n)],
+                byexp1  |-> [d \in Dev |-> [n \in AllNames |-> Lookup(ImplPubD(mods, 1, {d}), n)]]]
   /\ UNCHANGED <<mods, stage, cost>>
 
 Next ==
